@@ -2,7 +2,7 @@ SPECIFICATION Spec
 CONSTANTS
   Order <- OrderLarge
   Fillers <- FillLarge
-  AsWritten = TRUE
+  LegacySkip = FALSE
   Emit = FALSE
-INVARIANTS BackupSide
+INVARIANTS BackupSide RestoreSound
 CHECK_DEADLOCK FALSE
